@@ -9,7 +9,7 @@ import (
 )
 
 func Spec(tier string, seed uint64, raceBin string) *core.CheckSpec {
-	worlds, raceWorlds := 700, 250
+	worlds, raceWorlds := 1000, 350
 	budget := 5 * time.Minute
 	if tier == "thorough" {
 		worlds, raceWorlds = 9000, 4000
